@@ -4268,8 +4268,8 @@ class FuncSum(ValueFunc):
         if args.hasArg("ignore"):
             ignore = args.getList("ignore").value
 
-        result = 0
-        decimalrequired = False
+        total = 0  # the ints: host integers, exact
+        decimals = []
 
         for value in lst:
             skipvalue = False
@@ -4280,26 +4280,45 @@ class FuncSum(ValueFunc):
             if skipvalue:
                 continue
 
-            try:
-                if value.isInt():
-                    result += value.value
-                elif value.isDecimal():
-                    result += value.value
-                    decimalrequired = True
-                else:
-                    raise CklRuntimeError(
-                        ValueString("ERROR"), "Cannot sum " + value.type(), pos
-                    )
-            except OverflowError:
+            if value.isInt():
+                total += value.value
+            elif value.isDecimal():
+                decimals.append(value.value)
+            else:
                 raise CklRuntimeError(
-                    ValueString("ERROR"),
-                    "Number too large for decimal arithmetic",
-                    pos,
+                    ValueString("ERROR"), "Cannot sum " + value.type(), pos
                 )
 
-        if decimalrequired:
-            return ValueDecimal(result)
-        return ValueInt(result)
+        if not decimals:
+            return ValueInt(total)
+
+        # Adding the decimals one after the other rounds after every step, so
+        # the result depended on the order of the list (sum([0.1, 0.2, 0.3])
+        # was not sum([0.3, 0.2, 0.1]), and mean() inherited it). The sum is
+        # computed without intermediate rounding instead: the total of the
+        # ints is split into decimals that hold it exactly, and everything is
+        # added with a single rounding at the end.
+        try:
+            parts = list(decimals)
+            rest = total
+            while rest != 0:
+                piece = float(rest)
+                parts.append(piece)
+                rest -= int(piece)
+            try:
+                return ValueDecimal(math.fsum(parts))
+            except (OverflowError, ValueError):
+                # beyond the range of a decimal: what `+` gives
+                result = total
+                for value in decimals:
+                    result += value
+                return ValueDecimal(result)
+        except OverflowError:
+            raise CklRuntimeError(
+                ValueString("ERROR"),
+                "Number too large for decimal arithmetic",
+                pos,
+            )
 
 
 class FuncTan(ValueFunc):
